@@ -151,10 +151,13 @@ Inductive rop :=
 | OpDelete (src : nat)
 | OpFind (path : nat).
 
-Inductive rres := ROk | RErr | RFound (src id hash : nat) | RNotFound | RDefault | RForeign.
+Inductive rres := ROk | RErr | RFound (src id hash : nat) | RNotFound | RDefault | RForeign | RPanic.
 
 Definition same_as (a b : rrule) : bool := (rr_id a =? rr_id b) && (rr_src a =? rr_src b).
-Definition equal_to (a b : rrule) : bool := same_as a b && (rr_hash a =? rr_hash b).
+(** EqualTo compares the hash of the rule DEFINITION, which covers the routes:
+    [rr_hash] stands for the rest of the definition *)
+Definition equal_to (a b : rrule) : bool :=
+  same_as a b && (rr_hash a =? rr_hash b) && list_eqb Nat.eqb (rr_paths a) (rr_paths b).
 
 Fixpoint idx_get (ix : list (nat * list rrule)) (p : nat) : list rrule :=
   match ix with
@@ -261,7 +264,7 @@ Definition repo_apply (def : bool) (s : rstate) (o : rop) : rstate * rres :=
 
 Definition rres_eqb (a b : rres) : bool :=
   match a, b with
-  | ROk, ROk | RErr, RErr | RNotFound, RNotFound | RDefault, RDefault => true
+  | ROk, ROk | RErr, RErr | RNotFound, RNotFound | RDefault, RDefault | RForeign, RForeign | RPanic, RPanic => true
   | RFound s1 i1 h1, RFound s2 i2 h2 => (s1 =? s2) && (i1 =? i2) && (h1 =? h2)
   | _, _ => false
   end.
